@@ -239,3 +239,57 @@ func VerifC19TransformCorners(bitsPer int) {
 	}
 	zv.Reach("corners")
 }
+
+// VerifC19TransformGround: ground (concrete) obligations, exhaustive over a small integer range:
+// for every quadrilateral with corner coordinates in 0..r (convex, non-degenerate) the transform
+// from the unit-scaled square (0,0),(4,0),(4,4),(0,4) maps each source corner onto its
+// destination within 1e-6, and the inverse direction as well. (The free-corner version of this
+// obligation does not finish in the solvers; this enumeration is supplementary, not symbolic.)
+func VerifC19TransformGround(r, x0 int) {
+	cross := func(ax, ay, bx, by, cx, cy int) int { return (bx-ax)*(cy-ay) - (by-ay)*(cx-ax) }
+	n := 0
+	for y0 := 0; y0 <= r; y0++ {
+		for x1 := 0; x1 <= r; x1++ {
+			for y1 := 0; y1 <= r; y1++ {
+				for x2 := 0; x2 <= r; x2++ {
+					for y2 := 0; y2 <= r; y2++ {
+						for x3 := 0; x3 <= r; x3++ {
+							for y3 := 0; y3 <= r; y3++ {
+								// strictly convex, consistently oriented
+								a := cross(x0, y0, x1, y1, x2, y2)
+								b := cross(x1, y1, x2, y2, x3, y3)
+								c := cross(x2, y2, x3, y3, x0, y0)
+								d := cross(x3, y3, x0, y0, x1, y1)
+								if !(a > 0 && b > 0 && c > 0 && d > 0) {
+									continue
+								}
+								n++
+								fx := []float64{float64(x0), float64(y0), float64(x1), float64(y1), float64(x2), float64(y2), float64(x3), float64(y3)}
+								t := PerspectiveTransform_QuadrilateralToQuadrilateral(0, 0, 4, 0, 4, 4, 0, 4, fx[0], fx[1], fx[2], fx[3], fx[4], fx[5], fx[6], fx[7])
+								pts := []float64{0, 0, 4, 0, 4, 4, 0, 4}
+								t.TransformPoints(pts)
+								ok := true
+								for i := range pts {
+									df := pts[i] - fx[i]
+									ok = ok && df <= 1e-6 && df >= -1e-6
+								}
+								zv.Assert(ok, "square corner does not map onto the quadrilateral corner")
+								t2 := PerspectiveTransform_QuadrilateralToQuadrilateral(fx[0], fx[1], fx[2], fx[3], fx[4], fx[5], fx[6], fx[7], 0, 0, 4, 0, 4, 4, 0, 4)
+								p2 := append([]float64(nil), fx...)
+								t2.TransformPoints(p2)
+								want := []float64{0, 0, 4, 0, 4, 4, 0, 4}
+								ok = true
+								for i := range p2 {
+									df := p2[i] - want[i]
+									ok = ok && df <= 1e-6 && df >= -1e-6
+								}
+								zv.Assert(ok, "quadrilateral corner does not map onto the square corner")
+							}
+						}
+					}
+				}
+			}
+		}
+	}
+	zv.Reach("transformground")
+}
